@@ -224,10 +224,15 @@ Proof. exact respond_w_tc_build. Qed.
    then the response is TC-clear and not an error SERVFAIL (c04_tc_shape, handle_non_axfr_query) — the decoded authority
    section is the NS RRset of the delegation and the decoded additional section BEGINS WITH every address record
    ([glue_rrs]: for each NS target at/below the child, in RDATA order, the A RRset and, in class IN, the AAAA RRset that
-   Zone::lookup_addrs reports with search_below_cuts) — whatever the transport, the limit and the EDNS settings.  What may
-   be missing for lack of space are only records after them (the other name servers' addresses, added under
-   execute_allowing_truncation).  PARTIAL with respect to clause (iv): no comparison with the TCP response; referrals
-   reached through a CNAME chain or by QTYPE ANY are not covered (same argument, not done). *)
+   Zone::lookup_addrs reports with search_below_cuts) — whatever the transport, the limit and the EDNS settings; after
+   them come records related to an order-preserving SUB-SELECTION X ([Sub]) of the candidate list [opt_rrs] (the address
+   records of the other name servers, added under execute_allowing_truncation), then only pseudo-records (the OPT).
+   Since glue_rrs and opt_rrs are functions of the zone and the question alone, any two successful responses to the same
+   referral — over UDP and over TCP, under any limits — have the same authority section, the same glue, and differ only in
+   WHICH of the optional candidates are present: the complete response has them all (X = opt_rrs), a UDP response that
+   lacks room omits some.  This is clause (iv) for direct referrals, stated per response against the canonical lists
+   instead of by comparing two runs.  PARTIAL: direct referrals only (not those reached through a CNAME chain or by QTYPE
+   ANY, nor the additional-section processing of positive answers: same argument, not done). *)
 Theorem c04_glue_complete_partial : forall reqf apex cls wide recs z negttl buf tcp id rd qname qtype qclass edns limit child ns,
   (forall c t a b d, reqf c t a b = true -> reqf c t b d = true -> reqf c t a d = true) ->
   zone_build reqf (zone_new apex cls wide) recs = Some z ->
@@ -242,11 +247,13 @@ Theorem c04_glue_complete_partial : forall reqf apex cls wide recs z negttl buf 
     decode_msg (firstn len b) = Some m /\
     match do_referral w_iface z child ns w with
     | Ok _ =>
-      exists ds_ns ds_glue ds_other,
+      exists ds_ns ds_glue X ds_opt ds_pseudo,
         m_ns m = ds_ns /\
         Forall2 (rr_rel xparts) (map (mkAR child Standard Gen.ZoneConsts.TYPE_NS (z_class z) (ttl_rfc (fst ns))) (snd ns)) ds_ns /\
-        m_ar m = ds_glue ++ ds_other /\
-        Forall2 (rr_rel xparts) (glue_rrs z child (snd ns)) ds_glue
+        m_ar m = ds_glue ++ ds_opt ++ ds_pseudo /\
+        Forall2 (rr_rel xparts) (glue_rrs z child (snd ns)) ds_glue /\
+        Forall2 (rr_rel xparts) X ds_opt /\ Sub X (opt_rrs z child (snd ns)) /\
+        forallb is_pseudo ds_pseudo = true
     | _ => True
     end.
 Proof. exact respond_referral_glue_build. Qed.
